@@ -77,6 +77,21 @@ def main(tier='quick', seed=0, nshards=16):
         for op, extra in (('c08.raw', ()), ('c08.cooked', ()), ('c08.preds', ()), ('c08.sigops', ('0',)),
                           ('c08.sigops', ('1',))):
             need('\t'.join((op, h) + extra), 'shape')
+    # objects with history: every ordered observer pair on every key shape, both sigop orders on every short script
+    hist = {}
+    for l in lines:
+        if l.startswith('c08.hist\t'):
+            _, h, obs, _route = l.split('\t')
+            hist.setdefault(h, set()).add(obs)
+    for s_ in c08.HIST_SHAPES:
+        for x in c08.OBSERVERS:
+            for y in c08.OBSERVERS:
+                if x + ',' + y not in hist.get(s_.hex(), ()):
+                    missing.append(('hist-pair', s_.hex()[:20] + ' ' + x + ',' + y))
+    for h in short:
+        for obs in ('so0,so1,so0', 'so1,so0,so1'):
+            if obs not in hist.get(h, ()):
+                missing.append(('hist-so', h + ' ' + obs))
     if tier == 'thorough':
         heads = list(range(0, 0x62)) + [0xac, 0xad, 0xae, 0xaf]
         for a in heads:
